@@ -180,7 +180,11 @@ pub fn panic_sig(p: &PanicInfo) -> String {
         }
     }
     if m.len() > 80 {
-        m.truncate(80);
+        let mut cut = 80;
+        while !m.is_char_boundary(cut) {
+            cut -= 1;
+        }
+        m.truncate(cut);
     }
     let loc = if in_repo {
         format!("{}", fname)
